@@ -2,7 +2,6 @@ package main
 
 import "verifharness/vkit"
 
-func c33(r *vkit.Run) {}
 func c34(r *vkit.Run) {}
 func c35(r *vkit.Run) {}
 func c37(r *vkit.Run) {}
